@@ -164,7 +164,7 @@ def run_split(case):
         if kind == "lineage" and vmode == "duplicate":
             if vd != V or ve != V:
                 bad("daughter-volume", "duplicated volume: daughters %r %r, mother %r" % (vd, ve, V))
-        elif abs(vd + ve - V) > 1e-12 * V:
+        elif not (abs(vd + ve - V) <= 1e-12 * V):
             bad("daughter-volume", "daughter volumes %r + %r != mother %r" % (vd, ve, V))
         p = vd / V
         if kind == "perfect_binomial" and vd != V / 2:
@@ -368,7 +368,7 @@ def run_lineage(case):
             b = np.array(d2.py_get_data(), dtype=float)[0]
             m = X[-1]
             va, vb = np.array(d1.py_get_volume())[0], np.array(d2.py_get_volume())[0]
-            if abs(va + vb - V[-1]) > 1e-12 * V[-1]:
+            if not (abs(va + vb - V[-1]) <= 1e-12 * V[-1]):
                 bad("daughter-volume", "schnitz %d: daughter volumes %r + %r != mother's last volume %r" % (i, va, vb, V[-1]))
             p = va / V[-1] if V[-1] > 0 else 0.5
             for sname, mode in modes.items():
